@@ -26,6 +26,7 @@ mod sm9api;
 mod c18;
 mod c19;
 mod c20;
+mod cold;
 
 use engine::*;
 use std::sync::Arc;
@@ -141,6 +142,7 @@ fn main() {
             let end: usize = args.get(5).and_then(|s| s.parse().ok()).unwrap_or(0);
             c20::child_main(tier, cseed, start, end);
         }
+        Some("cold") => cold::child_main(args.get(2).map(|s| s.as_str()).unwrap_or("")),
         Some("tool") => match args.get(2).map(|s| s.as_str()) {
             Some("search-c1") => c19::search_c1_scalars(),
             Some("search-sig") => c04::search_small_components(),
